@@ -11,7 +11,8 @@
 (* must evaluate without error for every executable, predictable result.   *)
 (***************************************************************************)
 EXTENDS Props
-CONSTANTS MODES                         \* processor modes of the pre-state (16 = User, 19 = Supervisor)
+CONSTANTS T16ALL,                       \* TRUE: every one of the 2^16 halfwords (thorough tier); FALSE: top 10 bits x 3 fillings
+          MODES                         \* processor modes of the pre-state (16 = User, 19 = Supervisor)
 VARIABLES sc
 vars == <<sc>>
 MkWordBits(pairs) == LET RECURSIVE f(_) f(k) == IF k = 0 THEN Zero ELSE SetBitW(f(k - 1), pairs[k][1], pairs[k][2]) IN f(Len(pairs))
@@ -21,9 +22,10 @@ Init == sc = [stage |-> 0]
 PickARM == sc.stage = 0 /\ \E a \in 0..255, b \in 0..15, c \in {14, 15, 0}, f \in Fill, md \in MODES :
              sc' = [stage |-> 1, iset |-> 0, len |-> 32, it |-> 0, md |-> md,
                     w |-> WOr(WOr(<<c * 4096 + a * 16, b * 16>>, Zero), FillBits(f, <<15, 65295>>))]
-PickT16 == sc.stage = 0 /\ \E a \in 0..1023, f \in Fill, it \in {0, 100, 72}, md \in MODES :
+PickT16 == sc.stage = 0 /\ \E a \in 0..1023, f \in (IF T16ALL THEN 0..63 ELSE Fill), it \in {0, 100, 72}, md \in MODES :
              /\ a \div 32 \notin {29, 30, 31}
-             /\ sc' = [stage |-> 1, iset |-> 1, len |-> 16, it |-> it, md |-> md, w |-> <<0, a * 64 + Lo(FillBits(f, <<0, 63>>))>>]
+             /\ sc' = [stage |-> 1, iset |-> 1, len |-> 16, it |-> it, md |-> md,
+                       w |-> <<0, a * 64 + (IF T16ALL THEN f ELSE Lo(FillBits(f, <<0, 63>>)))>>]
 PickT32 == sc.stage = 0 /\ \E a \in 0..4095, b \in 0..15, f \in Fill, md \in MODES :
              /\ a \div 128 \in {29, 30, 31}
              /\ sc' = [stage |-> 1, iset |-> 1, len |-> 32, it |-> 0, md |-> md,
